@@ -21,7 +21,8 @@ RULE = ('each case = 10-40 steps on one endpoint: update_settings with one or ma
         'between; in-force values measured by behaviour probes on clones right before and after every ACK; non-trivial = at '
         'least one ACK event and one probe set judged; distinct = hash of the step list')
 MINIMA = {'ack_events_judged': 3000, 'remote_settings_events_judged': 3000, 'probe_sets': 3000, 'raising_updates_judged': 800,
-          'multi_frame_in_flight_acks': 800, 'same_key_twice_in_flight': 200, 'empty_updates_sent': 300}
+          'multi_frame_in_flight_acks': 800, 'same_key_twice_in_flight': 200, 'empty_updates_sent': 300,
+          'reserved_stream_present_at_remote_settings': 150}
 
 DEFAULT_LOCAL = {1: 4096, 3: 100, 4: 65535, 5: 16384, 6: 65536, 8: 0}
 VALUES = {1: [0, 100, 4096, 8192], 2: [0, 1], 3: [0, 1, 2, 3, 5], 4: [0, 1, 1000, 40000, 65535], 5: [16384, 16385, 20000, 40000],
@@ -325,10 +326,51 @@ def run_case(idx, rng, tier, rep):
         if rng.random() < 0.2 and pairs:
             k = pairs[0][0]
             pairs.append((k, rng.choice(VALUES.get(k, [5, 6])) if k != 2 else pairs[0][1]))     # duplicate id: last wins
+        # send windows of every stream that still has one (open, half-closed (remote) and streams E has promised but not
+        # started), read before and after: a new INITIAL_WINDOW_SIZE moves all of them by the difference, at once
+        room = False
+        try:
+            room = h.c.open_inbound_streams + 1 <= h.c.local_settings.max_concurrent_streams and \
+                h.c.open_outbound_streams + 1 <= h.c.remote_settings.max_concurrent_streams
+        except Exception:       # noqa
+            pass
+        # (same guards as traffic(): the request must fit E's acknowledged limits, and no change of them may be in flight)
+        quiet = local[6] >= 200 and not any(fr != 'initial' and any(k in (3, 6) for k, _ in fr) for fr in fifo)
+        if not e_client and room and quiet and rng.random() < 0.3 and getattr(h.c.remote_settings, 'enable_push', 0):
+            try:
+                h.block_prefix = hm.table_size_update(min(local[1], 4096))      # (the peer follows E's acknowledged table size)
+                par = h.reach('open')
+                if h.t.call('push_stream', par, h.e_next, REQ).ok:
+                    h.e_next += 2
+                    rep.count('reserved_stream_present_at_remote_settings')
+            except AssertionError:
+                pass
+        win_before = {}
+        for sid0, sobj in list(getattr(h.c, 'streams', {}).items()):
+            stn = getattr(getattr(getattr(sobj, 'state_machine', None), 'state', None), 'name', '')
+            if stn in ('OPEN', 'HALF_CLOSED_REMOTE', 'RESERVED_LOCAL'):
+                win_before[sid0] = getattr(sobj, 'outbound_flow_control_window', None)
+        iws_before = remote.get(4, 65535)
         res = h.send(wire.build_settings(pairs))
         steps.append(('remote-settings', pairs))
         if res.exc is not None:
+            if 4 in dict(pairs) and any(w is not None and w + dict(pairs)[4] - iws_before > 2 ** 31 - 1 for w in win_before.values()):
+                st['alive'] = False          # a window would overflow: that rejection is C12's question
+                return True
             return fail('C11:valid-remote-settings-rejected', 'SETTINGS %s raised %r' % (pairs, res.exc))
+        if 4 in dict(pairs):
+            delta = dict(pairs)[4] - iws_before
+            for sid0, wb in win_before.items():
+                sobj = getattr(h.c, 'streams', {}).get(sid0)
+                wa = getattr(sobj, 'outbound_flow_control_window', None)
+                if wb is None or wa is None:
+                    continue
+                rep.count('stream_send_windows_checked_after_remote_iws')
+                if wa != wb + delta:
+                    stn = getattr(getattr(getattr(sobj, 'state_machine', None), 'state', None), 'name', '?')
+                    return fail('C11:remote-initial-window-size-not-applied-to-stream:%s' % stn,
+                                'stream %d (%s) send window %d -> %d after INITIAL_WINDOW_SIZE %d -> %d' %
+                                (sid0, stn, wb, wa, iws_before, dict(pairs)[4]))
         rep.count('remote_settings_events_judged')
         acks = [f for f in res.frames if f.type == wire.SETTINGS and f.ack]
         if len(acks) != 1 or len(res.frames) != 1:
